@@ -65,6 +65,7 @@ const NullValue = "\u2421"
 // Lengths of various Uid representations.
 const (
 	uidBase64Unpadded = 11
+	uidBase32Unpadded = 13
 	p2pBase64Unpadded = 22
 )
 
@@ -167,7 +168,12 @@ func ParseUid(s string) Uid {
 // ParseUid32 parses base32-encoded string into Uid.
 func ParseUid32(s string) Uid {
 	var uid Uid
-	if data, err := base32.StdEncoding.WithPadding(base32.NoPadding).DecodeString(s); err == nil {
+	if len(s) != uidBase32Unpadded {
+		// Not an encoding of 8 bytes.
+		return uid
+	}
+	// String32 produces lower case, the standard alphabet is upper case.
+	if data, err := base32.StdEncoding.WithPadding(base32.NoPadding).DecodeString(strings.ToUpper(s)); err == nil {
 		uid.UnmarshalBinary(data)
 	}
 	return uid
